@@ -41,6 +41,16 @@ func child0301(in Sx) Sx {
 	t0 := time.Now().UnixNano() - 2e9
 	var res []Sx
 	for _, op := range in.L {
+		res = append(res, c03ExecOp(op, t0))
+	}
+	unix.Chdir("/")
+	return L(L(res...), c03Snapshot("/", t0))
+}
+
+// c03ExecOp lets the kernel execute one op of the table above (also used to build the
+// initial file system of kind 0302).
+func c03ExecOp(op Sx, t0 int64) Sx {
+	{
 		a := op.L
 		str := func(i int) string { return a[i].Str() }
 		var r Sx
@@ -135,10 +145,8 @@ func child0301(in Sx) Sx {
 		default:
 			r = L(S("bad-op"))
 		}
-		res = append(res, r)
+		return r
 	}
-	unix.Chdir("/")
-	return L(L(res...), c03Snapshot("/", t0))
 }
 
 // stat(2) result: the record of the followed inode (xattrs read with following calls)
